@@ -793,6 +793,11 @@ def check_positional_order(ctx, rule, module_names):
                     # them against the signature as it stands (producer and consumers may change together)
                     continue
                 cur = fi.params
+                if fi.cls is not None:
+                    # a method is called through an object: the receiver is not one of the caller's positional arguments
+                    # (a method that never used `self` may become a @staticmethod - the calls users make bind the same)
+                    cur = [p_ for k_, p_ in enumerate(cur) if not (k_ == 0 and p_ in ("self", "cls"))]
+                    want = [p_ for k_, p_ in enumerate(want) if not (k_ == 0 and p_ in ("self", "cls"))]
             n += 1
             for i, name in enumerate(cur):
                 if name in want and want.index(name) != i:
